@@ -186,12 +186,36 @@ def _mul_terms(a, b):
     return a * b
 
 
-class SymReal:
-    __slots__ = ("t", "sq")
+def _aq_shift(aq, c_delta, flip=False):
+    """affine-quotient metadata (c, k, u, t) denotes  c + k * u / |t|;  returns the metadata of  (+-)(value) + c_delta"""
+    c, k, u, t = aq
+    if flip:
+        return (c_delta - c, -k, u, t)
+    return (c + c_delta, k, u, t)
 
-    def __init__(self, t, sq=None):
+
+def _aq_cancel(a, b):
+    """(c + k*u/|x|) * x  ==  c*x + k*u*sign(x)   (x != 0 is implied: the division by |x| was checked).  Exact rewrite that
+    keeps  BST(x, u) = (1 - u/||x||) x  on one-element blocks piecewise linear."""
+    for p, q in ((a, b), (b, a)):
+        if isinstance(p, SymReal) and p.aq is not None and isinstance(q, SymReal):
+            c, k, u, x = p.aq
+            if x.eq(q.t):
+                sgn = z3.If(x > 0, z3.RealVal(1), z3.RealVal(-1))
+                ku = u if k == 1 else (-u if k == -1 else z3.RealVal(k) * u)
+                return SymReal(_mul_terms(c, x) + _mul_terms(sgn, ku))
+    return None
+
+
+class SymReal:
+    __slots__ = ("t", "sq", "ab", "aq", "fac")
+
+    def __init__(self, t, sq=None, ab=None, aq=None, fac=None):
+        self.fac = fac        # (a, b) when this value is the product a*b of two symbolic terms
         self.t = t
         self.sq = sq          # exact square, when this value was produced by sqrt()
+        self.ab = ab          # x, when this value is |x|
+        self.aq = aq          # (c, k, u, x) when this value is  c + k*u/|x|  (block soft-thresholding scale factor)
 
     def __format__(self, f):
         return "<sym>"
@@ -205,6 +229,8 @@ class SymReal:
             return NotImplemented
         if _isinf(o):
             return o
+        if s.aq is not None and not isinstance(o, SymReal):
+            return _LazyAQ(_aq_shift(s.aq, R(o)))
         return SymReal(s.t + R(o))
 
     def __radd__(s, o):
@@ -212,6 +238,8 @@ class SymReal:
             return NotImplemented
         if _isinf(o):
             return o
+        if s.aq is not None and not isinstance(o, SymReal):
+            return _LazyAQ(_aq_shift(s.aq, R(o)))
         return SymReal(R(o) + s.t)
 
     def __sub__(s, o):
@@ -219,6 +247,8 @@ class SymReal:
             return NotImplemented
         if _isinf(o):
             return -o
+        if s.aq is not None and not isinstance(o, SymReal):
+            return _LazyAQ(_aq_shift(s.aq, -R(o)))
         return SymReal(s.t - R(o))
 
     def __rsub__(s, o):
@@ -226,6 +256,8 @@ class SymReal:
             return NotImplemented
         if _isinf(o):
             return o
+        if s.aq is not None and not isinstance(o, SymReal):
+            return _LazyAQ(_aq_shift(s.aq, R(o), flip=True))
         return SymReal(R(o) - s.t)
 
     def __mul__(s, o):
@@ -235,7 +267,10 @@ class SymReal:
             raise NonFinite("inf * symbolic")
         if o is s and s.sq is not None:
             return s.sq
-        return SymReal(_mul_terms(s.t, R(o)))
+        r = _aq_cancel(s, o)
+        if r is not None:
+            return r
+        return SymReal(_mul_terms(s.t, R(o)), fac=(s.t, o.t) if isinstance(o, SymReal) else None)
 
     def __rmul__(s, o):
         if _isnd(o) or isinstance(o, Lifted):
@@ -252,6 +287,13 @@ class SymReal:
         d = R(o)
         if SymBool(d == 0):
             raise ZeroDivisionError("division by zero (symbolic divisor can be 0)")
+        if isinstance(o, SymReal) and o.ab is not None and s.fac is not None:
+            # (m * x) / |x|  ==  m * sign(x)     (x != 0 was just checked)
+            for m, x in (s.fac, s.fac[::-1]):
+                if x.eq(o.ab):
+                    return SymReal(_mul_terms(z3.If(x > 0, z3.RealVal(1), z3.RealVal(-1)), m))
+        if isinstance(o, SymReal) and o.ab is not None:
+            return _LazyAQ((z3.RealVal(0), 1, s.t, o.ab))
         return _quot(s.t, d)
 
     def __rtruediv__(s, o):
@@ -261,6 +303,8 @@ class SymReal:
             raise ZeroDivisionError("division by zero (symbolic divisor can be 0)")
         if _isinf(o):
             raise NonFinite("inf / symbolic")
+        if s.ab is not None:
+            return _LazyAQ((z3.RealVal(0), 1, R(o), s.ab))
         return _quot(R(o), s.t)
 
     def __neg__(s):
@@ -270,7 +314,7 @@ class SymReal:
         return s
 
     def __abs__(s):
-        return SymReal(z3.If(s.t >= 0, s.t, -s.t))
+        return SymReal(z3.If(s.t >= 0, s.t, -s.t), ab=s.t)
 
     def __pow__(s, o):
         if isinstance(o, SymReal):
@@ -320,7 +364,9 @@ class SymReal:
         return out
 
     def sqrt(s):
-        return s.root_pow(1, 2)
+        if SymBool(s.t < 0):
+            raise ValueError("fractional power of a negative number (nan)")
+        return _LazySqrt(s)
 
     def exp(s):
         return Ctx.cur.uf_exp(s)
@@ -398,6 +444,47 @@ class SymReal:
 
     def copy(s):
         return s
+
+
+class _LazySqrt(SymReal):
+    """sqrt(rad) whose root variable (and its non-linear defining constraint  rt >= 0, rt*rt == rad) is only introduced
+    when the VALUE is needed;  sqrt(rad)**2  and  r*r  return rad itself and never create it (norm(v)**2 stays polynomial)."""
+    __slots__ = ("_rad", "_forced")
+
+    def __init__(self, rad):
+        self._rad = rad
+        self._forced = None
+        self.sq = rad
+        self.ab = None
+        self.aq = None
+        self.fac = None
+
+    @property
+    def t(self):
+        if self._forced is None:
+            self._forced = self._rad.root_pow(1, 2).t
+        return self._forced
+
+
+class _LazyAQ(SymReal):
+    """c + k*u/|x| (k = +-1) whose quotient variable is only introduced when the value is needed; multiplying by x cancels it
+    exactly (see _aq_cancel), adding / subtracting constants shifts c."""
+    __slots__ = ("_forced",)
+
+    def __init__(self, aq):
+        self.aq = aq
+        self._forced = None
+        self.sq = None
+        self.ab = None
+        self.fac = None
+
+    @property
+    def t(self):
+        if self._forced is None:
+            c, k, u, x = self.aq
+            q = _quot(u, z3.If(x >= 0, x, -x)).t
+            self._forced = c + (q if k == 1 else -q)
+        return self._forced
 
 
 class Lifted:
